@@ -52,6 +52,15 @@ def preMem {α : Type} : Mem (Array α × Array Nat) α where
       some (s.1.swap i j h.1.1 h.1.2, s.2.swap i j h.2.1 h.2.2)
     else none
 
+/-- a memory that also logs its swaps: (number of swaps, order-sensitive checksum of their index pairs).  Used by
+the driver to compare the swap sequence of the real code (observed through a custom `iterSwapper`) with the model. -/
+def tracedMem {σ α : Type} (M : Mem σ α) : Mem (σ × Nat × Nat) α where
+  item := fun s i => M.item s.1 i
+  code := fun s i => M.code s.1 i
+  swap := fun s i j =>
+    match s with
+    | (a, n, chk) => (M.swap a i j).map fun a' => (a', n + 1, (chk * 1000003 + i * 65537 + j + 1) % 2 ^ 64)
+
 /-- `size_t` subtraction that must not wrap -/
 def csub (a b : Nat) : Option Nat := if b ≤ a then some (a - b) else none
 
